@@ -30,23 +30,25 @@ type detClass struct {
 }
 
 type runVariant struct {
-	procs   int    // GOMAXPROCS, 0 = default
-	race    bool   // race-detector build
-	debug   bool   // --debug
-	inPath  string // stdin | dash | file
-	outFile bool
-	prefill bool // the -o file exists already and is longer than the new output
-	inPlace bool // FILE input and -o name the same file
-	devNull bool // standard input is /dev/null instead of a pipe (commands that read nothing, or an empty input)
-	pieces  int  // > 1: standard input arrives in that many pieces with pauses (short reads)
-	outNull bool // standard output is /dev/null (a character device): only success is compared
-	oddName bool // FILE and -o names contain $, ~, blanks and braces
-	linkCwd bool // the working directory is entered through a symbolic link and -o is relative with a .. in it
-	late    bool // the producer of the standard input starts 2.6 s late (a slow pipeline, somebody typing)
+	procs    int    // GOMAXPROCS, 0 = default
+	race     bool   // race-detector build
+	debug    bool   // --debug
+	inPath   string // stdin | dash | file
+	outFile  bool
+	prefill  bool   // the -o file exists already and is longer than the new output
+	inPlace  bool   // FILE input and -o name the same file
+	devNull  bool   // standard input is /dev/null instead of a pipe (commands that read nothing, or an empty input)
+	pieces   int    // > 1: standard input arrives in that many pieces with pauses (short reads)
+	outNull  bool   // standard output is /dev/null (a character device): only success is compared
+	oddName  bool   // FILE and -o names contain $, ~, blanks and braces
+	linkCwd  bool   // the working directory is entered through a symbolic link and -o is relative with a .. in it
+	late     bool   // the producer of the standard input starts 2.6 s late (a slow pipeline, somebody typing)
+	outDev   string // -o names a device: /dev/stdout, /dev/fd/1 (the result arrives on the standard output) or /dev/null (success only)
+	appendIn bool   // FILE input, and the standard output is appended to that very file (crd ... f >> f)
 }
 
 func (v runVariant) String() string {
-	return fmt.Sprintf("procs=%d race=%v debug=%v in=%s out-o=%v existing-file=%v in-place=%v stdin-devnull=%v stdin-pieces=%d stdout-devnull=%v odd-file-names=%v cwd-through-symlink=%v stdin-starts-late=%v", v.procs, v.race, v.debug, v.inPath, v.outFile, v.prefill, v.inPlace, v.devNull, v.pieces, v.outNull, v.oddName, v.linkCwd, v.late)
+	return fmt.Sprintf("procs=%d race=%v debug=%v in=%s out-o=%v existing-file=%v in-place=%v stdin-devnull=%v stdin-pieces=%d stdout-devnull=%v odd-file-names=%v cwd-through-symlink=%v stdin-starts-late=%v o-device=%q stdout-appended-to-input=%v", v.procs, v.race, v.debug, v.inPath, v.outFile, v.prefill, v.inPlace, v.devNull, v.pieces, v.outNull, v.oddName, v.linkCwd, v.late, v.outDev, v.appendIn)
 }
 
 // runClass executes one variant and returns (success, output bytes, result).
@@ -141,12 +143,27 @@ func runClass(c *core.Ctx, cl detClass, v runVariant) (bool, []byte, *runner.Res
 		}
 		args = append(args, "-o", outPath)
 	}
+	if v.outDev != "" && !v.outFile {
+		args = append(args, "-o", v.outDev)
+	}
+	if v.appendIn && inFile != "" && !v.outFile && !v.outNull {
+		opt.Redirect = ">>" + inFile
+	}
 	res := c.Crd.Run(opt, args...)
 	c.Eval(1)
 	out := res.Stdout
 	if v.outFile && res.OK() {
 		// a failing command has no result: whatever it left (or did not touch) at the -o path is not compared
 		out = readFileOrNil(outPath)
+	}
+	if opt.Redirect != "" && strings.HasPrefix(opt.Redirect, ">>") {
+		// what the file held before must still be there, the result follows it
+		got := readFileOrNil(inFile)
+		if bytes.HasPrefix(got, cl.input) {
+			out = got[len(cl.input):]
+		} else {
+			out = append([]byte("(the input file was overwritten) "), got...)
+		}
 	}
 	return res.OK(), out, res
 }
@@ -310,6 +327,18 @@ func checkC12(c *core.Ctx) {
 		add("info chord describe/user-dict zx", []string{"info", "chord", "describe", "-t", "Czx", "--chord", cf, "--attr", af}, nil, false, true)
 		add("info chord list/user-dict", []string{"info", "chord", "list", "--chord", cf, "--attr", af}, nil, false, true)
 		add("info attr list/user-dict", []string{"info", "attr", "list", "--attr", af}, nil, false, true)
+		// a chord that names an attribute it also inherits, and one that names an attribute twice
+		df := c.Scratch.File("c12-dup.yml", chordsYAML([]userChord{
+			{Name: "ZdupNinth", Display: "zd9", Extends: "DominantSeventh", Attrs: []string{"Minor7", "Major9", "Perfect5", "Major13"}},
+			{Name: "ZdupTwice", Display: "zd2", Attrs: []string{"Perfect1", "Major3", "Major3", "Perfect5", "Perfect1", "Major7"}},
+			{Name: "ZdupChild", Display: "zdc", Extends: "zd9", Attrs: []string{"Major9", "Augmented11", "Major3"}},
+		}))
+		ddoc := []byte("- chord: {degree: \"1\", name: \"zd9\"}\n  values: [1]\n- chord: {degree: \"4\", name: \"zd2\"}\n  values: [1]\n- chord: {degree: \"5\", name: \"zdc\"}\n  values: [1]\n")
+		add("write/dup-attrs", []string{"write", "--chord", df}, ddoc, true, true)
+		add("write event/dup-attrs", []string{"write", "event", "--track", "3", "--chord", df}, ddoc, true, true)
+		add("info chord describe/dup-attrs zd9", []string{"info", "chord", "describe", "-t", "Czd9", "--chord", df}, nil, false, true)
+		add("info chord describe/dup-attrs zdc", []string{"info", "chord", "describe", "-t", "F#zdc", "-s", "--chord", df}, nil, false, true)
+		add("info chord list/dup-attrs", []string{"info", "chord", "list", "--chord", df}, nil, false, true)
 		// several files that redefine the same names: the last file given wins, whatever order they finish loading in
 		var cfs, afs []string
 		for k := 0; k < 4; k++ {
@@ -418,6 +447,18 @@ func checkC12(c *core.Ctx) {
 		if cl.reads && cl.input != nil && i%4 == 0 {
 			v := base
 			v.late = true
+			variants = append(variants, v)
+		}
+		if cl.writes {
+			v := base
+			v.outDev = []string{"/dev/stdout", "/dev/fd/1", "/proc/self/fd/1"}[i%3]
+			variants = append(variants, v)
+			v.outDev, v.outNull = "/dev/null", true
+			variants = append(variants, v)
+		}
+		if cl.reads && cl.input != nil && len(cl.input) > 0 && oddNameSafe(cl.name) {
+			v := base
+			v.inPath, v.appendIn = "file", true
 			variants = append(variants, v)
 		}
 		if cl.writes {
@@ -603,6 +644,9 @@ func checkC12(c *core.Ctx) {
 	})
 }
 
+// oddNameSafe: every reading class may have its output appended to its input file.
+func oddNameSafe(string) bool { return true }
+
 func variantDim(v runVariant) string {
 	var d []string
 	if v.procs > 0 {
@@ -628,6 +672,12 @@ func variantDim(v runVariant) string {
 	}
 	if v.late {
 		d = append(d, "late")
+	}
+	if v.outDev != "" {
+		d = append(d, "odev")
+	}
+	if v.appendIn {
+		d = append(d, "append")
 	}
 	if len(d) == 0 {
 		return "repeat"
